@@ -464,3 +464,72 @@ mod t_shm_writer {
         assert_eq!(ceb, expected);
     }
 }
+
+/// Verification hooks: public wrappers around this module's private items, for out-of-tree
+/// verification harnesses. Compiled only with `--cfg aws_clock_bound_verif`; adds no behaviour.
+#[cfg(aws_clock_bound_verif)]
+pub mod verif_hooks {
+    use super::*;
+    use clock_bound_shm::ClockStatus;
+
+    /// Public handle on the private `ShmUpdater`.
+    pub struct Updater<W: ShmWrite>(ShmUpdater<W>);
+
+    impl<W: ShmWrite> Updater<W> {
+        pub fn new(writer: W, max_drift_ppb: u32) -> Self {
+            Updater(ShmUpdater::new(writer, max_drift_ppb))
+        }
+
+        /// An updater in an arbitrary state (for one-step inductive checks).
+        pub fn with_state(
+            writer: W,
+            max_drift_ppb: u32,
+            bound_nsec: i64,
+            as_of: libc::timespec,
+            status: ChronyClockStatus,
+        ) -> Self {
+            let mut updater = ShmUpdater::new(writer, max_drift_ppb);
+            updater.bound_nsec = bound_nsec;
+            updater.as_of = as_of;
+            updater.shm_clock_state = updater.shm_clock_state.apply_chrony(status);
+            Updater(updater)
+        }
+
+        pub fn clock_update(
+            &mut self,
+            tracking: Tracking,
+            phc_error_bound: i64,
+            as_of: libc::timespec,
+        ) {
+            self.0.process_clock_update(tracking, phc_error_bound, as_of)
+        }
+
+        pub fn missing(&mut self, within_grace_period: bool) {
+            self.0.process_missing_clock_update(within_grace_period)
+        }
+
+        pub fn writer(&self) -> &W {
+            &self.0.writer
+        }
+
+        pub fn writer_mut(&mut self) -> &mut W {
+            &mut self.0.writer
+        }
+
+        pub fn state(&self) -> (i64, libc::timespec, ClockStatus) {
+            (
+                self.0.bound_nsec,
+                self.0.as_of,
+                self.0.shm_clock_state.value(),
+            )
+        }
+    }
+
+    pub fn extract_bound(tracking: Tracking) -> (i64, ChronyClockStatus) {
+        extract_bound_from_tracking(tracking)
+    }
+
+    pub fn run_process_messages<W: ShmWrite>(ctx: Context, updater: Updater<W>) {
+        process_messages(ctx, updater.0)
+    }
+}
